@@ -58,6 +58,10 @@ def settings(quick):
             for rnd in (True, False):
                 for dec, tho in SEPS:
                     out.append({"d": d, "remove": remove, "round": rnd, "dec": dec, "tho": tho})
+    # thousands separators of several characters (not palindromes): the separator is written as it is, between the groups
+    for tho in ("&nbsp;", " '"):
+        out.append({"d": 2, "remove": False, "round": True, "dec": ".", "tho": tho})
+        out.append({"d": 0, "remove": True, "round": True, "dec": ",", "tho": tho})
     return out
 
 
@@ -136,6 +140,8 @@ def run_items(rep, items, tag):
             sip, sfp = shortest(line["val"]["f"])
             ev = {"ev": "format", "kind": it["kind"], "v": {"neg": neg, "ip": ip, "fp": fp, "sticky": sticky, "sip": sip, "sfp": sfp},
                   "out": list(line["out"]), "deco": {}, "digits": 0}
+            if len(it["st"]["tho"]) > 1:
+                ev["tho_seq"] = list(it["st"]["tho"])
             if it["kind"] == "money":
                 c = cur[it["extra"].upper()]
                 ev["deco"] = {"sym": list(c["symbol"]), "left": c["symbolOnLeft"], "space": c["spaceBetweenAmountAndSymbol"]}
